@@ -65,6 +65,11 @@ def run(repo, rep, tier):
     _handler(repo, rep)
     _functions(repo, rep)
     _formatted(repo, rep)
+    # 'the line and column at which that text stands': the message takes
+    # them from Token.location (C11 owns its closed form)
+    from . import c11
+    L.borrow(repo, rep, "R12.6", "C11", c11._location,
+             ("location-line", "location-column"), minimum=2)
     L.state_rule(repo, rep)
 
 
